@@ -232,4 +232,73 @@ def dShape : Verif.Model.Dispatch.Resp → Id × Option Int
   | .result i _ => (i, none)
   | .error i c => (i, some c)
 
+/-! ## independence: of what was served before, and of other instances -/
+
+theorem toolsCall_fst_congr (render : Json → Option String) (s s' : Srv) (n : Key) (a : ArgsV)
+    (h : s.tools = s'.tools) : (toolsCall render s n a).1 = (toolsCall render s' n a).1 := by
+  unfold toolsCall
+  rw [h]
+  repeat' split
+  all_goals simp_all
+
+theorem resourcesRead_fst_congr (s s' : Srv) (u : Key) (h : s.resources = s'.resources) :
+    (resourcesRead s u).1 = (resourcesRead s' u).1 := by
+  unfold resourcesRead
+  rw [h]
+  repeat' split
+  all_goals simp_all
+
+/-- a response depends on the registries, the capabilities and the server info — on nothing else
+(not on the log, i.e. not on what was served before) -/
+theorem serve_fst_congr (cfg : Cfg) (s s' : Srv) (r : Req) (ht : s.tools = s'.tools)
+    (hr : s.resources = s'.resources) (hc : s.caps = s'.caps) (hi : s.info = s'.info) :
+    (serve cfg s r).1 = (serve cfg s' r).1 := by
+  have h1 := toolsCall_fst_congr cfg.render s s' r.name r.args ht
+  have h2 := resourcesRead_fst_congr s s' r.uri hr
+  unfold serve builtin toolsList resourcesList
+  rw [ht, hr, hc, hi]
+  by_cases m0 : r.method = "" <;> simp only [m0, if_true, if_false]
+  by_cases m1 : r.method = "notifications/initialized" <;> simp only [m1, if_true, if_false]
+  by_cases m2 : r.method = "ping" <;> simp only [m2, if_true, if_false]
+  by_cases m3 : r.method = "initialize" <;> simp only [m3, if_true, if_false]
+  by_cases m4 : r.method = "tools/list" <;> simp only [m4, if_true, if_false]
+  by_cases m5 : r.method = "tools/call"
+  · simp only [m5, if_true]; rw [h1]
+  simp only [m5, if_false]
+  by_cases m6 : r.method = "resources/list" <;> simp only [m6, if_true, if_false]
+  by_cases m7 : r.method = "resources/read"
+  · simp only [m7, if_true]; rw [h2]
+  simp only [m7, if_false]
+
+/-- two servers alive side by side: a tagged request goes to one of them -/
+def servePair (cfg : Cfg) (p : Srv × Srv) (x : Bool × Req) : Option CResp × (Srv × Srv) :=
+  if x.1 then ((serve cfg p.1 x.2).1, ((serve cfg p.1 x.2).2, p.2))
+  else ((serve cfg p.2 x.2).1, (p.1, (serve cfg p.2 x.2).2))
+
+def servePairAll (cfg : Cfg) (p : Srv × Srv) : List (Bool × Req) → List (Bool × Option CResp) × (Srv × Srv)
+  | [] => ([], p)
+  | x :: rest =>
+    let a := servePair cfg p x
+    let b := servePairAll cfg a.2 rest
+    ((x.1, a.1) :: b.1, b.2)
+
+theorem servePairAll_proj (cfg : Cfg) (p : Srv × Srv) (xs : List (Bool × Req)) :
+    ((servePairAll cfg p xs).1.filter (·.1)).map (·.2)
+        = (serveAll cfg p.1 ((xs.filter (·.1)).map (·.2))).1
+    ∧ ((servePairAll cfg p xs).1.filter (fun y => !y.1)).map (·.2)
+        = (serveAll cfg p.2 ((xs.filter (fun y => !y.1)).map (·.2))).1
+    ∧ (servePairAll cfg p xs).2.1 = (serveAll cfg p.1 ((xs.filter (·.1)).map (·.2))).2
+    ∧ (servePairAll cfg p xs).2.2 = (serveAll cfg p.2 ((xs.filter (fun y => !y.1)).map (·.2))).2 := by
+  induction xs generalizing p with
+  | nil => simp [servePairAll, serveAll]
+  | cons x rest ih =>
+    obtain ⟨b, r⟩ := x
+    cases b
+    · have := ih (servePair cfg p (false, r)).2
+      simp only [servePairAll, servePair, Bool.false_eq_true, if_false] at *
+      simp [serveAll, this]
+    · have := ih (servePair cfg p (true, r)).2
+      simp only [servePairAll, servePair, if_true] at *
+      simp [serveAll, this]
+
 end Verif.Model.McpServer
